@@ -414,6 +414,14 @@ qb_rb_chunks_used(struct qb_ringbuffer_s *rb)
 	return -ENOTSUP;
 }
 
+/* the longest chunk the ring can hold when it is empty */
+size_t
+qb_rb_chunk_max(struct qb_ringbuffer_s * rb)
+{
+	return (rb->shared_hdr->word_size * sizeof(uint32_t)) -
+	    QB_RB_CHUNK_MARGIN;
+}
+
 void *
 qb_rb_chunk_alloc(struct qb_ringbuffer_s * rb, size_t len)
 {
@@ -428,8 +436,7 @@ qb_rb_chunk_alloc(struct qb_ringbuffer_s * rb, size_t len)
 	 * What the empty ring cannot hold: compared without adding to len,
 	 * a length just below SIZE_MAX plus the margin is a small number.
 	 */
-	never_fits = (len > (rb->shared_hdr->word_size * sizeof(uint32_t)) -
-		      QB_RB_CHUNK_MARGIN);
+	never_fits = (len > qb_rb_chunk_max(rb));
 	/*
 	 * Reclaim data if we are over writing and we need space
 	 */
